@@ -558,6 +558,9 @@ func condAtomsOfExpr(a *Atoms) []string {
 		if strings.HasPrefix(id, "global:") {
 			out = append(out, id)
 		}
+		if strings.HasPrefix(id, "<") {
+			out = append(out, "input:"+id) // a parameter / receiver / result of that type
+		}
 	}
 	sort.Strings(out)
 	return out
@@ -627,13 +630,44 @@ func (w *World) unknownInputs(verifDir, host string, a *Atoms) []string {
 	set := map[string]bool{}
 	for _, h := range hostParts(host) {
 		known := w.condAtoms[h]
+		// reviewed helpers that were inlined into h brought their own decisions with them
+		var absorbed []map[string]bool
+		if hfi := w.Funcs[h]; hfi != nil {
+			for _, g := range w.vanishedFns() {
+				if w.condAtoms[g] != nil && w.absorbedInto(g, hfi) {
+					absorbed = append(absorbed, w.condAtoms[g])
+				}
+			}
+		}
 		for _, x := range condAtomsOfExpr(a) {
-			if known == nil || !known[x] {
+			ok := known != nil && known[x]
+			for _, m := range absorbed {
+				if m[x] {
+					ok = true
+				}
+			}
+			// the call of an absorbed helper no longer exists as a decision input
+			if !ok {
 				set[x] = true
 			}
 		}
 	}
 	return keys(set)
+}
+
+// vanishedFns: reviewed functions that no longer exist (and were not renamed).
+func (w *World) vanishedFns() []string {
+	if w.vanished != nil {
+		return w.vanished
+	}
+	w.vanished = []string{}
+	for k := range w.base.fns {
+		if w.Funcs[k] == nil {
+			w.vanished = append(w.vanished, k)
+		}
+	}
+	sort.Strings(w.vanished)
+	return w.vanished
 }
 
 // hostPos: where, inside fi's own declaration, node n takes effect: n's own position when
